@@ -445,7 +445,15 @@ impl<'p> Model<'p> {
         let mut work: Vec<u32> = self.model_t(r).into_iter().collect();
         while let Some(f) = work.pop() {
             if !self.touched.contains(&f) && self.pending.insert(f) {
-                work.extend(self.model_t(f));
+                // A firewall that was already verified in this epoch (it was
+                // executed or handed out on some other path) is not entered
+                // again by the pass: its own pending backward projections are
+                // run, the firewalls below it are not visited.
+                let verified_now = self.last_exec(f).is_some_and(|r| r.epoch == self.epoch)
+                    || self.last_serve.get(&f).is_some_and(|s| s.1 == self.epoch);
+                if !verified_now {
+                    work.extend(self.model_t(f));
+                }
             }
         }
     }
@@ -597,6 +605,16 @@ impl<'p> Model<'p> {
             return Ok(());
         }
         if *val != want {
+            if std::env::var("VERIF_DEBUG").is_ok() {
+                eprintln!(
+                    "MISMATCH n={n} touched={:?} pending={:?} dirty_since_cover={:?} closure={:?} old={}",
+                    self.touched,
+                    self.pending,
+                    self.dirty_since_cover,
+                    self.closure_latest(n),
+                    self.last_exec(n).is_some_and(|r| r.epoch < self.epoch)
+                );
+            }
             return Err(Failure {
                 class: "wrong_value".into(),
                 msg: format!(
